@@ -1,3 +1,4 @@
+import SFV.Gen.IoNames
 /-
 K8 — Program ↔ IR conversion.  Executable model of the logic core of
 `strawberryfields/io/blackbird_io.py` (`to_blackbird`, `from_blackbird`, `from_blackbird_to_tdm`),
@@ -65,6 +66,10 @@ def Sym.negate (e : Sym) : Sym := { e with pos := e.neg, neg := e.pos, val := e.
 
 /-- the same expression in a program in which nothing is bound or measured yet -/
 def Sym.noVal (e : Sym) : Sym := { e with val := none }
+
+/-- the value of a constant symbolic expression (no free or measured parameter in it, e.g. a
+decomposition product `0.72 - 0.5*pi`): `par_evaluate` always succeeds on it -/
+def constVal (e : Sym) : Option Sc := if e.meas = [] ∧ e.frees = [] then e.val else none
 
 /-- the canonical loop variable `p_i` of a TDM program -/
 def loopSym (i : Nat) : Sym :=
@@ -189,10 +194,13 @@ deriving DecidableEq, Repr, Inhabited
 (all operations, measurements included) -/
 def bbArg (tdm : Bool) : Val → Val
   | .sym e =>
-    if e.meas ≠ [] then .rrt e          -- contains measured parameters: RegRefTransform
-    else match tdm, e.pos.loop with
-      | true, some i => .pname i        -- `str(p) == str(ar)` for a loop variable: its name
-      | _, _ => .str e.pos.text         -- `str(a)`
+    match constVal e with
+    | some v => .sc v                   -- a constant expression: its value
+    | none =>
+      if e.meas ≠ [] then .rrt e          -- contains measured parameters: RegRefTransform
+      else match tdm, e.pos.loop with
+        | true, some i => .pname i        -- `str(p) == str(ar)` for a loop variable: its name
+        | _, _ => .str e.pos.text         -- `str(a)`
   | v => v
 
 def optKw (k : String) : Option Val → List (String × Val)
@@ -258,6 +266,12 @@ def bbExpr (P : String → Option Sym) : Val → Val
     | none => .str s
   | v => v
 
+/-- `op["op"] in ops.__all__` (the classes; the shorthand instances are not operations a writer emits) -/
+def checkName (cls : String) : Except Err Unit :=
+  if SFV.Gen.ioClassNames.contains cls then .ok ()
+  else if SFV.Gen.ioShorthands.contains cls then .error .unmodelled
+  else .error .nameError
+
 def lookupKw (k : String) (l : List (String × Val)) : Option Val := (l.find? (·.1 = k)).map (·.2)
 
 /-- `gate(*args, **kwargs)` for the keyword arguments the writers produce (`phi`, `select`,
@@ -279,6 +293,7 @@ def unPname : Val → Val
   | v => v
 
 def fromBBOp (P : String → Option Sym) (n : Nat) (o : BBOp) : Except Err Cmd := do
+  checkName o.op
   let args ← (o.args.map (bbExpr P ∘ unPname)).mapM (convert n)
   let kws ← convertKw n (o.kwargs.map fun kv => (kv.1, bbExpr P (unPname kv.2)))
   build o.op o.modes args kws false
@@ -296,6 +311,7 @@ def tdmArg : Val → Val
   | v => v
 
 def fromBBOpTdm (P : String → Option Sym) (n : Nat) (o : BBOp) : Except Err Cmd := do
+  checkName o.op
   let args ← (o.args.map (bbExpr P ∘ tdmArg)).mapM (convert n)
   let kws ← convertKw n (o.kwargs.map fun kv => (kv.1, bbExpr P (tdmArg kv.2)))
   build o.op o.modes args kws false
@@ -343,9 +359,12 @@ deriving DecidableEq, Repr, Inhabited
 /-- `_param_to_xir` (all operations, the phase of a measurement included); the value an expression
 currently holds is not looked at -/
 def xirArg (tdm : Bool) : Val → Val
-  | .sym e => match tdm, e.pos.loop with
-    | true, some i => .pname i      -- `a in prog.loop_vars`: its name
-    | _, _ => .str e.pos.plain      -- `a.name` / `str` of the expression with plain names
+  | .sym e =>
+    match constVal e with
+    | some v => .sc v                 -- a constant expression: its value
+    | none => match tdm, e.pos.loop with
+      | true, some i => .pname i      -- `a in prog.loop_vars`: its name
+      | _, _ => .str e.pos.plain      -- `a.name` / `str` of the expression with plain names
   | .arr [_] d => .lst d            -- `_listr` of a 1-D array
   | v => v
 
@@ -379,7 +398,8 @@ def xirReadArg (P : String → Option Sym) : Val → Except Err Val
   | .pname i => xirExpr P (.str ("p" ++ toString i))
   | v => xirExpr P v
 
-def fromXStmt (P : String → Option Sym) (n : Nat) (s : XStmt) : Except Err Cmd :=
+def fromXStmt (P : String → Option Sym) (n : Nat) (s : XStmt) : Except Err Cmd := do
+  checkName s.name
   match s.params with
   | .kw [] => build s.name s.wires [] [] s.inverse
   | .pos [] => build s.name s.wires [] [] s.inverse
@@ -412,7 +432,8 @@ def xirReadKwTdm (P : String → Option Sym) (k : Nat) : Val → Except Err Val
   | .pname i => if i < k then .ok (.sym (loopSym i)) else .error .indexError
   | v => xirExpr P v
 
-def fromXStmtTdm (P : String → Option Sym) (n k : Nat) (s : XStmt) : Except Err Cmd :=
+def fromXStmtTdm (P : String → Option Sym) (n k : Nat) (s : XStmt) : Except Err Cmd := do
+  checkName s.name
   match s.params with
   | .kw [] => build s.name s.wires [] [] s.inverse
   | .pos [] => build s.name s.wires [] [] s.inverse
